@@ -313,14 +313,33 @@ def Block.isSec : Block → Bool
   | .wrapper _ => true
   | _ => false
 
-def bodyLoop : List Block → Bool → List Tok
+/-- does the block that directly follows continue an Outlook comment left open? (`body.go`: a section or wrapper that is not
+    full-width) -/
+def nextConsumes : List Block → Bool
+  | .section s :: _ => !s.fw
+  | .wrapper w :: _ => !w.fw
+  | _ => false
+
+/-- what each body child writes (into its own buffer), with the pending flag threaded through -/
+def blockOuts : List Block → Bool → List (List Tok)
   | [], _ => []
   | .section s :: rest, p =>
-    let r := s.emit p (rest.any Block.isSec)
-    r.1 ++ bodyLoop rest r.2
-  | .wrapper w :: rest, p => w.toks p ++ bodyLoop rest false      -- a wrapper consumes and never leaves the comment
-  | .hero ls :: rest, p => heroToks ls ++ bodyLoop rest p        -- pending is *not* reset: faithful to the code
-  | .raw b :: rest, p => (if b then [] else [o Tag.para, t, c Tag.para]) ++ bodyLoop rest p
+    let r := s.emit p (nextConsumes rest)
+    r.1 :: blockOuts rest r.2
+  | .wrapper w :: rest, p => w.toks p :: blockOuts rest false      -- a wrapper consumes and never leaves the comment
+  | .hero ls :: rest, p => heroToks ls :: blockOuts rest p          -- pending is *not* reset: faithful to the code
+  | .raw b :: rest, p => (if b then [] else [o Tag.para, t, c Tag.para]) :: blockOuts rest p
+
+/-- the body writes each block once the next one is known: where one block ends with `endif` and the next begins with
+    `if mso | IE`, both markers are dropped (MJML's mergeOutlookConditionnals at block boundaries); empty outputs are skipped -/
+def join : List Tok → List (List Tok) → List Tok
+  | held, [] => held
+  | held, out :: rest =>
+    if out = [] then join held rest
+    else if held.getLast? = some cc ∧ out.head? = some co then held.dropLast ++ join out.tail rest
+    else held ++ join out rest
+
+def bodyLoop (bs : List Block) (p : Bool) : List Tok := join [] (blockOuts bs p)
 
 def render (bs : List Block) : List Tok := [o div] ++ bodyLoop bs false ++ [c div]
 
@@ -330,13 +349,17 @@ def Wrapper.tame (w : Wrapper) : Prop :=
   (w.kids = [] ∨ w.kids.any (fun c => match c with | .sec _ => true | .raw b => !b) = true)
 
 /-- the tame fragment: while the Outlook comment is pending only a non-full-width section or wrapper may
-    follow; wrappers are tame -/
+    follow; wrappers are tame.  Since `body.go` looks at the next sibling before letting a section leave the comment open,
+    the first condition holds for every body (`tame_of_wrappers`); only the wrapper hand-over remains a hypothesis. -/
 def Tame : List Block → Bool → Prop
   | [], _ => True
-  | .section s :: rest, p => (p = true → s.fw = false) ∧ Tame rest (s.emit p (rest.any Block.isSec)).2
+  | .section s :: rest, p => (p = true → s.fw = false) ∧ Tame rest (s.emit p (nextConsumes rest)).2
   | .wrapper w :: rest, p => (p = true → w.fw = false) ∧ w.tame ∧ Tame rest false
   | .raw true :: rest, p => Tame rest p                          -- a blank raw writes nothing
   | _ :: rest, p => p = false ∧ Tame rest p
+
+/-- every wrapper of the body is one the Outlook hand-over handles -/
+def WrappersTame (bs : List Block) : Prop := ∀ b ∈ bs, match b with | .wrapper w => w.tame | _ => True
 
 
 /-! ### proofs: closed evaluation + frame lemma -/
@@ -679,44 +702,155 @@ theorem wrapper_run (w : Wrapper) (p : Bool) (hp : p = true → w.fw = false) (h
     | (exfalso; simp [hfw] at hp; done)
     | exact sandwich _ _ _ _ _ _ _ (by rfl) hk (by rfl) sd al
 
-/-- body loop: on the tame fragment the machine ends in standard mode with both stacks restored -/
-theorem body_run : ∀ (bs : List Block) (p : Bool) (sd al : List Tag),
-    Tame bs p → (p = true → bs.any Block.isSec = true) →
-    run ⟨p, sd, al⟩ (bodyLoop bs p) = some ⟨false, sd, al⟩
+/-- the concatenated block outputs, before the boundary merge -/
+def bodyFlat (bs : List Block) (p : Bool) : List Tok := (blockOuts bs p).flatten
+
+theorem secLeave_next (s : Section) (p : Bool) (rest : List Block) :
+    (s.emit p (nextConsumes rest)).2 = true → nextConsumes rest = true := by
+  unfold Section.emit emitToks secLeave; simp
+
+/-- body loop before the merge: on the tame fragment the machine ends in standard mode with both stacks restored -/
+theorem flat_run : ∀ (bs : List Block) (p : Bool) (sd al : List Tag),
+    Tame bs p → (p = true → nextConsumes bs = true) →
+    run ⟨p, sd, al⟩ (bodyFlat bs p) = some ⟨false, sd, al⟩
   | [], p, sd, al, _, hp => by
     cases p
     · rfl
-    · simp at hp
+    · simp [nextConsumes] at hp
   | .section s :: rest, p, sd, al, ht, _ => by
-    simp only [bodyLoop]
+    simp only [bodyFlat, blockOuts, List.flatten_cons]
     rw [run_append, section_run s p _ ht.1]
     simp only [Option.bind_some]
-    exact body_run rest _ sd al ht.2 (by
-      unfold Section.emit emitToks secLeave; simp)
+    exact flat_run rest _ sd al ht.2 (secLeave_next s p rest)
   | .wrapper w :: rest, p, sd, al, ht, _ => by
-    simp only [bodyLoop]
+    simp only [bodyFlat, blockOuts, List.flatten_cons]
     rw [run_append, wrapper_run w p ht.1 ht.2.1 sd al]
     simp only [Option.bind_some]
-    exact body_run rest false sd al ht.2.2 (by simp)
+    exact flat_run rest false sd al ht.2.2 (by simp)
   | .hero ls :: rest, p, sd, al, ht, _ => by
     obtain ⟨hp0, ht'⟩ := ht
     subst hp0
-    simp only [bodyLoop]
+    simp only [bodyFlat, blockOuts, List.flatten_cons]
     rw [run_append, hero_neutral ls sd al]
-    exact body_run rest false sd al ht' (by simp)
+    exact flat_run rest false sd al ht' (by simp)
   | .raw true :: rest, p, sd, al, ht, hp => by
-    simp only [bodyLoop, ite_true, List.nil_append]
-    exact body_run rest p sd al ht (by intro h; simpa [Block.isSec] using hp h)
+    have hp0 : p = false := by
+      cases p
+      · rfl
+      · simp [nextConsumes] at hp
+    subst hp0
+    simp only [bodyFlat, blockOuts, List.flatten_cons, ite_true, List.nil_append]
+    exact flat_run rest false sd al ht (by simp)
   | .raw false :: rest, p, sd, al, ht, _ => by
     obtain ⟨hp0, ht'⟩ := ht
     subst hp0
-    simp only [bodyLoop]
+    simp only [bodyFlat, blockOuts, List.flatten_cons]
     rw [run_append, raw_block_neutral false sd al]
-    exact body_run rest false sd al ht' (by simp)
+    exact flat_run rest false sd al ht' (by simp)
+
+/-- an `endif` directly followed by `if mso | IE` can be dropped: whatever the machine accepted, it still accepts, with the same
+    result -/
+theorem run_cc_co (s r : MS) (xs ys : List Tok) (h : run s (xs ++ cc :: co :: ys) = some r) : run s (xs ++ ys) = some r := by
+  rw [run_append] at h ⊢
+  cases hx : run s xs with
+  | none => simp [hx] at h
+  | some s1 =>
+    simp only [hx, Option.bind_some] at h ⊢
+    simp only [run, stepTok] at h
+    cases hm : s1.mso
+    · simp [hm] at h
+    · simp only [hm, if_true, Option.bind_some, Bool.false_eq_true, if_false] at h
+      have : ({ ({ s1 with mso := false } : MS) with mso := true } : MS) = s1 := by cases s1; simp_all
+      rw [this] at h
+      exact h
+
+theorem eq_dropLast_of_getLast (l : List Tok) (x : Tok) (h : l.getLast? = some x) : l = l.dropLast ++ [x] := by
+  have hne : l ≠ [] := by intro hn; simp [hn] at h
+  have := List.dropLast_concat_getLast hne
+  rw [List.getLast?_eq_getLast hne] at h
+  simp only [Option.some.injEq] at h
+  rw [← h]; exact this.symm
+
+theorem eq_cons_of_head (l : List Tok) (x : Tok) (h : l.head? = some x) : l = x :: l.tail := by
+  cases l with
+  | nil => simp at h
+  | cons a r => simp at h; simp [h]
+
+/-- the boundary merge keeps whatever the machine concluded about the concatenated blocks -/
+theorem join_run : ∀ (outs : List (List Tok)) (held : List Tok) (s r : MS),
+    run s (held ++ outs.flatten) = some r → run s (join held outs) = some r
+  | [], held, s, r, h => by simpa [join] using h
+  | out :: rest, held, s, r, h => by
+    unfold join
+    by_cases he : out = []
+    · simp only [he, if_true]
+      apply join_run rest held s r
+      simpa [he] using h
+    · simp only [he, if_false]
+      by_cases hm : held.getLast? = some cc ∧ out.head? = some co
+      · simp only [hm, and_self, if_true]
+        have h1 := eq_dropLast_of_getLast held cc hm.1
+        have h2 := eq_cons_of_head out co hm.2
+        rw [h1, h2] at h
+        simp only [List.flatten_cons, List.append_assoc, List.singleton_append, List.cons_append] at h
+        have h3 := run_cc_co s r held.dropLast (out.tail ++ rest.flatten) h
+        rw [run_append] at h3 ⊢
+        cases hx : run s held.dropLast with
+        | none => simp [hx] at h3
+        | some s1 =>
+          simp only [hx, Option.bind_some] at h3 ⊢
+          exact join_run rest out.tail s1 r h3
+      · simp only [hm, if_false]
+        simp only [List.flatten_cons, ← List.append_assoc] at h
+        rw [List.append_assoc, run_append] at h
+        rw [run_append]
+        cases hx : run s held with
+        | none => simp [hx] at h
+        | some s1 =>
+          simp only [hx, Option.bind_some] at h ⊢
+          exact join_run rest out s1 r h
+
+/-- body loop: on the tame fragment the machine ends in standard mode with both stacks restored -/
+theorem body_run (bs : List Block) (p : Bool) (sd al : List Tag)
+    (ht : Tame bs p) (hp : p = true → nextConsumes bs = true) :
+    run ⟨p, sd, al⟩ (bodyLoop bs p) = some ⟨false, sd, al⟩ := by
+  unfold bodyLoop
+  apply join_run
+  simpa [bodyFlat] using flat_run bs p sd al ht hp
+
+/-- since the body only lets a section leave the comment open in front of a block that continues it, every body whose wrappers
+    are tame is in the tame fragment -/
+theorem tame_of_wrappers : ∀ (bs : List Block) (p : Bool), WrappersTame bs → (p = true → nextConsumes bs = true) → Tame bs p
+  | [], _, _, _ => trivial
+  | .section s :: rest, p, hw, hp => by
+    refine ⟨fun h => by simpa [nextConsumes] using hp h, ?_⟩
+    exact tame_of_wrappers rest _ (fun b hb => hw b (List.mem_cons_of_mem _ hb)) (secLeave_next s p rest)
+  | .wrapper w :: rest, p, hw, hp => by
+    refine ⟨fun h => by simpa [nextConsumes] using hp h, hw (.wrapper w) (List.mem_cons_self ..), ?_⟩
+    exact tame_of_wrappers rest false (fun b hb => hw b (List.mem_cons_of_mem _ hb)) (by simp)
+  | .hero ls :: rest, p, hw, hp => by
+    have hp0 : p = false := by
+      cases p
+      · rfl
+      · simp [nextConsumes] at hp
+    exact ⟨hp0, by subst hp0; exact tame_of_wrappers rest false (fun b hb => hw b (List.mem_cons_of_mem _ hb)) (by simp)⟩
+  | .raw true :: rest, p, hw, hp => by
+    have hp0 : p = false := by
+      cases p
+      · rfl
+      · simp [nextConsumes] at hp
+    subst hp0
+    exact tame_of_wrappers rest false (fun b hb => hw b (List.mem_cons_of_mem _ hb)) (by simp)
+  | .raw false :: rest, p, hw, hp => by
+    have hp0 : p = false := by
+      cases p
+      · rfl
+      · simp [nextConsumes] at hp
+    exact ⟨hp0, by subst hp0; exact tame_of_wrappers rest false (fun b hb => hw b (List.mem_cons_of_mem _ hb)) (by simp)⟩
 
 /-- **C02 ∧ C03 on the tame fragment of the whole layout model** (sections with any mix of columns, groups
     and raws; full-width and background-image sections; tame wrappers; heroes; raws; Outlook-comment
-    chaining): the standard-client view and the Outlook view of the rendered body are both strictly
+    chaining and the boundary merge): the standard-client view and the Outlook view of the rendered body are both strictly
     nested, conditional comments alternate, no VML outside a conditional. -/
 theorem C02_C03_tame (bs : List Block) (h : Tame bs false) : WF (render bs) := by
   unfold WF render
@@ -726,30 +860,34 @@ theorem C02_C03_tame (bs : List Block) (h : Tame bs false) : WF (render bs) := b
   rw [body_run bs false [div] [div] h (by simp)]
   rfl
 
+/-- … which is every body whose wrappers are tame: any sequence of sections (full-width, background image, chaining or not),
+    heroes and raws is well formed for both kinds of client -/
+theorem C02_C03_all (bs : List Block) (hw : WrappersTame bs) : WF (render bs) :=
+  C02_C03_tame bs (tame_of_wrappers bs false hw (by simp))
+
 
 /-- non-vacuity: chaining section, multi-column section with a group and a raw, a wrapper, a hero -/
 example : Tame [.section ⟨false, false, false, false, false, false, [.col ⟨false, [.text]⟩, .raw false, .group [.col ⟨true, [.text]⟩, .col ⟨false, []⟩]]⟩,
                 .wrapper ⟨false, true, [.sec ⟨false, false, false, false, true, false, [.col ⟨false, [.text]⟩]⟩, .raw false,
                                         .sec ⟨false, false, true, false, false, false, [.col ⟨false, [.text]⟩]⟩]⟩,
                 .section ⟨true, true, false, false, false, false, [.col ⟨false, [.text]⟩]⟩, .hero [.text]] false := by
-  simp [Tame, Wrapper.tame, secsOf, Section.emit, emitToks, secLeave, Block.isSec]
+  simp [Tame, Wrapper.tame, secsOf, Section.emit, emitToks, secLeave, nextConsumes]
 
-/-- the full statements are false of the code — kernel-checked counterexamples, one per recorded class -/
-example : ¬ WF (render [.section ⟨false, false, false, false, false, false, [.col ⟨false, [.text]⟩]⟩,
-                        .section ⟨true, false, false, false, false, false, [.col ⟨false, [.text]⟩]⟩]) := by
+/-- the classes repaired in body.go (section in front of a full-width section, of a hero, of raw content) are well formed now -/
+example : WF (render [.section ⟨false, false, false, false, false, false, [.col ⟨false, [.text]⟩]⟩,
+                      .section ⟨true, false, false, false, false, false, [.col ⟨false, [.text]⟩]⟩]) := by
   unfold WF; decide
+example : WF (render [.section ⟨false, false, false, false, false, false, [.col ⟨false, [.text]⟩]⟩, .hero [.text],
+                      .section ⟨false, false, false, false, false, false, [.col ⟨false, [.text]⟩]⟩]) := by
+  unfold WF; decide
+example : WF (render [.section ⟨false, false, false, false, false, false, [.col ⟨false, [.text]⟩]⟩, .raw false,
+                      .section ⟨false, false, false, false, false, false, [.col ⟨false, [.text]⟩]⟩]) := by
+  unfold WF; decide
+
+/-- the full statements are still false of the code — kernel-checked counterexamples, one per recorded class (all inside
+    wrappers: the wrapper <-> section Outlook hand-over) -/
 example : ¬ WF (render [.wrapper ⟨false, false, [.sec ⟨false, true, false, false, false, false, [.col ⟨false, [.text]⟩]⟩]⟩]) := by
   unfold WF; decide
 example : ¬ WF (render [.wrapper ⟨false, false, [.raw true]⟩]) := by
-  unfold WF; decide
-example : ¬ WF (render [.section ⟨false, false, false, false, false, false, [.col ⟨false, [.text]⟩]⟩, .hero [.text],
-                        .section ⟨false, false, false, false, false, false, [.col ⟨false, [.text]⟩]⟩]) := by
-  unfold WF; decide
-
-/-- C04 corollary shape: with `t` failing inside an Outlook conditional, `WF` also says that no author
-    content is hidden from standard clients; the recorded class "raw after a chaining section" is a
-    counterexample -/
-example : ¬ WF (render [.section ⟨false, false, false, false, false, false, [.col ⟨false, [.text]⟩]⟩, .raw false,
-                        .section ⟨false, false, false, false, false, false, [.col ⟨false, [.text]⟩]⟩]) := by
   unfold WF; decide
 end Gomjml.Layout
